@@ -13,6 +13,7 @@ from ..runner import CaseResult, digest
 
 ID = "C11"
 ATOMS = ["a", "Bc", ":k", "?x", "-", "1.5", "<="]
+ODD_ATOMS = ["x^2", "#t", "p@q", "a,b", "k|", "[i]", "$v", "!n", "~", "a&b", "50%", '"s"', "it's", "{z}", "\\e", "^"]
 GAPS = [" ", "  ", "\t", "\n", "\r\n", "", " ;c\n", ";(x) ;y\n", "\n; only (comment\n", " \t \n"]
 SMALL_GAPS = [" ", "\t", "\n", " ;c\n", "", "\r\n"]
 TINY_GAPS = [" ", "\t", "\n", ""]
@@ -90,6 +91,21 @@ def cases(tier):
                     continue
                 seen.add(key)
                 yield {"tree": tree, "dev": 2 if tier == "quick" else 3, "tier": tier}
+    # atoms written with characters outside the usual PDDL set ('^' is the library's own power operator)
+    for n in range(2, 5 if tier == "quick" else 6):
+        for sh in shapes(n):
+            k = count_leaves(sh)
+            if k == 0:
+                continue
+            for rot in range(len(ODD_ATOMS)):
+                mixed = [ODD_ATOMS[(rot + i) % len(ODD_ATOMS)] if i % 2 == 0 else ATOMS[(rot + i) % len(ATOMS)]
+                         for i in range(k)]
+                tree = label(sh, mixed)
+                key = sexp.dumps(tree)
+                if key in seen:
+                    continue
+                seen.add(key)
+                yield {"tree": tree, "dev": 1 if tier == "quick" else 2, "tier": tier, "odd": True}
 
 
 def flat(tree):
@@ -194,6 +210,35 @@ def faults(tree):
     yield c + " ;x\n zz", "form comment atom"
 
 
+def check_reuse(r, tree, want):
+    """one tokenizer object, parse() called three times: a well-formed text gives the same tree every time, a
+    malformed one is rejected every time (never an answer built from what an earlier call left behind)"""
+    from ..bridge import PDDLTokenizer, write_tmp
+    toks = flat(tree)
+    good = render(toks, canonical_gaps(toks))
+    texts = [(good, True, "well-formed")] + [(t, False, what) for t, what in faults(tree)]
+    for text, ok, what in texts:
+        for entry in ("str", "file"):
+            tk = guard(lambda: PDDLTokenizer(pddl_str=text) if entry == "str" else PDDLTokenizer(file_path=write_tmp(text, ".tok")))
+            if isinstance(tk, Raised):
+                continue
+            r.count("states")
+            for call in range(3):
+                got = guard(tk.parse)
+                r.count("transitions")
+                if ok and (isinstance(got, Raised) or got != want):
+                    r.outcome("reuse-wrong")
+                    r.fail("reuse", f"{entry}: call {call + 1} of parse() on one tokenizer over {text!r} -> "
+                           f"{got!r}, expected {want!r}", want, str(got), tags=[entry, "reuse"])
+                    return
+                if not ok and not isinstance(got, Raised):
+                    r.outcome("reuse-malformed-accepted")
+                    r.fail("malformed-accepted", f"{entry}: {what}: call {call + 1} of parse() on one tokenizer over "
+                           f"{text!r} returned {got!r}", "exception", got, tags=[entry, "reuse"])
+                    return
+            r.outcome("reuse-ok")
+
+
 def check_case(case):
     r = CaseResult()
     tree = case["tree"]
@@ -241,6 +286,7 @@ def check_case(case):
                 r.outcome("malformed-accepted")
                 r.fail("malformed-accepted", f"{entry}: {what}: {text!r} accepted as {got!r}", "exception",
                        got, tags=[entry, what.split(" at ")[0]])
+    check_reuse(r, tree, want)
     r.count("distinct_results_per_tree_max", 0)
     if len(results) > 1:
         r.outcome("tree-with-layout-dependent-result")
